@@ -19,15 +19,15 @@ import (
 )
 
 func init() {
-	batchProbes["C05"] = batchSrc
-	batchProbes["C08"] = batchSrc
+	batchProbes["C05"] = func(cases [][]string, out *bufio.Writer) { batchSrc("C05", cases, out) }
+	batchProbes["C08"] = func(cases [][]string, out *bufio.Writer) { batchSrc("C08", cases, out) }
 }
 
 // <id> psync|dump <start> <nrdb> <seedR> <ncmd> <seedC> <chunk>:<pause_us> <hdrhex>|<act,act,...> ...
 //
 // The source stream of connection 0 is hdr ++ payload(seedR, nrdb) ++ payload(seedC, ncmd);
 // reconnections get their header and the command stream from the requested offset on.
-func batchSrc(cases [][]string, out *bufio.Writer) {
+func batchSrc(prop string, cases [][]string, out *bufio.Writer) {
 	conf.Options.HttpProfile = 9320
 	conf.Options.Metric = false
 	conf.Options.Id = "verif"
@@ -37,13 +37,28 @@ func batchSrc(cases [][]string, out *bufio.Writer) {
 	id := 5000
 	tmp, _ := os.MkdirTemp("", "rsprobe-dump")
 	defer os.RemoveAll(tmp)
-	parallelCases(cases, workers, out, func(c []string) string {
+	one := func(c []string) string {
 		idmu.Lock()
 		id++
 		my := id
 		idmu.Unlock()
-		return c[0] + " " + runSrc(c, my, tmp)
-	})
+		return runSrc(c, my, tmp)
+	}
+	if os.Getenv("RSPROBE_CHILD") == "1" {
+		isolatedCases(prop, cases, 1, out, one)
+		return
+	}
+	// dump mode ends in log.Panic (= os.Exit) on read errors: those cases run in child processes
+	var dumps, rest [][]string
+	for _, c := range cases {
+		if c[1] == "dump" {
+			dumps = append(dumps, c)
+		} else {
+			rest = append(rest, c)
+		}
+	}
+	isolatedCases(prop, dumps, 16, out, one)
+	parallelCases(rest, workers, out, func(c []string) string { return c[0] + " " + one(c) })
 }
 
 func runSrc(c []string, id int, tmp string) string {
@@ -68,7 +83,21 @@ func runSrc(c []string, id int, tmp string) string {
 
 	if c[1] == "dump" {
 		outp := filepath.Join(tmp, fmt.Sprintf("dump-%d.rdb", id))
-		r, n := run.VerifDump(addr, outp)
+		type dres struct {
+			r *bufio.Reader
+			n int64
+		}
+		dch := make(chan dres, 1)
+		go func() { r, n := run.VerifDump(addr, outp); dch <- dres{r, n} }()
+		var r *bufio.Reader
+		var n int64
+		select {
+		case d := <-dch:
+			r, n = d.r, d.n
+		case <-time.After(15 * time.Second):
+			data, _ := os.ReadFile(outp)
+			return fmt.Sprintf("dump err=timeout filelen=%d filefnv=%x", len(data), fnv64(data))
+		}
 		data, _ := os.ReadFile(outp)
 		os.Remove(outp)
 		left, _ := r.Peek(r.Buffered())
